@@ -19,7 +19,7 @@ R-mode: doubles as reals.
 import z3
 from fractions import Fraction
 from engine.api import Pack
-from engine.csym import as_real, simp
+from engine.csym import as_real, as_bool, simp
 from engine.mem import Ptr
 
 P = Pack("C03", ["src/integrator_whfast.c"], "Kepler propagation (universal variables)")
@@ -393,7 +393,7 @@ def code_sum(*terms):
     return r
 
 
-def prove_from(v, name, goal, hyps, order=PZ):
+def prove_from(v, name, goal, hyps, order=("polyid",)):
     """Obligation with a hand-picked subset of the path condition as hypotheses (sound: fewer hypotheses).  Keeps the
     ideal small for polyid.  Every hypothesis must literally be on the path condition."""
     from engine.csym import Obligation
@@ -425,6 +425,7 @@ def G_summary(rec, radius=True, ncs=4):
             st.assume(r0 + eta0 * G[1] + zeta0 * G[2] > 0)
             # the same fact on the term the code builds for r0 + (eta0*Gs[1] + zeta0*Gs[2])
             st.assume(code_sum(r0, code_sum(simp(eta0 * G[1]), simp(zeta0 * G[2]))) > 0)
+            st.assume(code_sum(r0, simp(eta0 * G[1]), simp(zeta0 * G[2])) > 0)
         rec.append({"beta": beta, "X": X, "G": G, "rel": rel})
         return None
     return apply
@@ -438,6 +439,7 @@ def solver_setup(v, nvar=0):
     """Symbolic inputs of reb_whfast_kepler_solver(r, p_j, M, i, dt) with the documented precondition."""
     S = Setup()
     v.eng.check_defined = True
+    v.eng.prune_timeout = 150          # feasibility pruning only; 'unknown' keeps the path
     S.r, S.rp = v.struct_obj("struct reb_simulation", "r")
     S.r.N_var_config = nvar
     S.pj = v.array("struct reb_particle", None, "pj")
@@ -616,6 +618,124 @@ def _(v):
     v.prove("frame.mass", S.pj.array("m") == S.old["m"])
 
 
+P.assume("properties of G-functions used for the iteration formulas: d/dX of F(X) = r0 X + eta0 G2 + zeta0 G3 - dt is "
+         "F' = r0 + eta0 G1 + zeta0 G2 and F'' = eta0 G0 + zeta0 G1 (dG_{n+1}/dX = G_n); the tasks prove that the code "
+         "evaluates exactly these three expressions and combines them as Newton / Laguerre-Conway(n=5) prescribe")
+
+
+def kepler_F(c, X, G):
+    F = c["r0"] * X + c["eta0"] * G[2] + c["zeta0"] * G[3] - c["_dt"]
+    F1 = c["r0"] + c["eta0"] * G[1] + c["zeta0"] * G[2]
+    F2 = c["eta0"] * G[0] + c["zeta0"] * G[1]
+    return F, F1, F2
+
+
+@P.task("kepler_solver.newton.iteration", fn=SOLVER)
+def _(v):
+    """The initial Newton step (lines 200-203) and one arbitrary iteration of the Newton loop, on the real code with the
+    G-function summary: X' = X - F(X)/F'(X); a fixed point X' == X is a root; the loop counter rises (bounded loop)."""
+    from engine.cexec import PathEnd
+    from engine.csym import NORMAL, Flow
+    S = solver_setup(v)
+    v.eng.merge_ifs = False            # fork on beta>0: keeps the initial guess a polynomial (no ite atoms)
+    tag = v.task.name
+
+    def quartic(eng, st, n, cond, inc, body):
+        raise PathEnd("quartic branch: other task")
+
+    def newton(eng, st, n, cond, inc, body):
+        capture(eng, st, S)
+        c = S.cap
+        # state at loop entry = result of the initial step
+        X1, X0 = eng.local(st, "X"), eng.local(st, "oldX")
+        first = S.rec[0]
+        eng.oblige(st, tag + ".initial.G_at_guess", first["X"] == X0)
+        F, F1, F2 = kepler_F(c, X0, first["G"])
+        den = code_sum(c["r0"], code_sum(simp(c["eta0"] * first["G"][1]), simp(c["zeta0"] * first["G"][2])))
+        prove_from(v, "initial.is_newton_step", X1 == X0 - F * (1 / den), [])
+        prove_from(v, "initial.denominator_is_Fprime", den == F1, [])
+        # one arbitrary iteration
+        mods = eng.loop_modifies(st, n, cond, inc, body, eng.loopspecs[(SOLVER, 2)])
+        eng.havoc(st, mods, "newton")
+        nh = eng.local(st, "n_hg")
+        Xa = eng.local(st, "X")
+        k = len(S.rec)
+        fl = eng.exec_stmt(st, body)
+        if fl.kind == Flow.NORMAL and inc is not None:
+            eng.rvalue(st, inc)
+        it = S.rec[k]
+        Xb, oldX = eng.local(st, "X"), eng.local(st, "oldX")
+        eng.oblige(st, tag + ".iteration.G_at_current_iterate", z3.And(it["X"] == Xa, oldX == Xa))
+        F, F1, F2 = kepler_F(c, Xa, it["G"])
+        den = code_sum(c["r0"], code_sum(simp(c["eta0"] * it["G"][1]), simp(c["zeta0"] * it["G"][2])))
+        prove_from(v, "iteration.is_newton_step", Xb == Xa - F * (1 / den), [])
+        prove_from(v, "iteration.denominator_is_Fprime", den == F1, [])
+        eng.oblige(st, tag + ".iteration.denominator_positive", den > 0)
+        if fl.kind == Flow.BREAK:
+            eng.oblige(st, tag + ".iteration.break_sets_converged", eng.local(st, "converged") == 1)
+            eng.oblige(st, tag + ".iteration.break_only_on_repeat", z3.Or(Xb == Xa, Xb == eng.local(st, "oldX2")))
+            fix = Xb == Xa
+            st.assume(fix)
+            prove_from(v, "iteration.fixed_point_is_root", F == 0, [fix])
+        else:
+            eng.oblige(st, tag + ".iteration.counter_rises", eng.local(st, "n_hg") == nh + 1)
+        cover(eng, st, tag)
+        raise PathEnd("one iteration checked")
+    v.loop(SOLVER, 0, invariant=quartic, mode="custom")
+    v.loop(SOLVER, 2, invariant=newton, mode="custom")
+    v.call(SOLVER, S.rp, S.pj.ptr, S.M, S.i, S.dt)
+
+
+@P.task("kepler_solver.quartic.iteration", fn=SOLVER)
+def _(v):
+    """One arbitrary iteration of the quartic loop on the real code (the scan of prevX[] for a repeated iterate is
+    skipped): the code evaluates F, F', F'' and updates X' = X - 5F/(F' + sqrt|16F'^2 - 20 F F''|), Laguerre-Conway
+    with n = 5 [(n-1)^2 = 16, n(n-1) = 20]; a fixed point X' == X is a root; initial guess X = beta dt / M."""
+    from engine.cexec import PathEnd
+    from engine.csym import NORMAL, Flow
+    S = solver_setup(v)
+    tag = v.task.name
+
+    def skip(eng, st, n, cond, inc, body):
+        return NORMAL
+
+    def newton(eng, st, n, cond, inc, body):
+        raise PathEnd("newton branch: other task")
+
+    def quartic(eng, st, n, cond, inc, body):
+        capture(eng, st, S)
+        c = S.cap
+        prove_from(v, "initial_guess", eng.local(st, "X") * c["M"] == c["beta"] * c["_dt"], [])
+        eng.write(st, eng.local_ptr(st, "X"), eng.fresh("X_k", z3.RealSort()))
+        eng.write(st, eng.local_ptr(st, "n_lag"), eng.fresh("n_lag", z3.IntSort()))
+        st.assume(eng.local(st, "n_lag") >= 1)          # counter starts at 1 and only grows
+        st.assume(as_bool(eng.rvalue(st, cond)))
+        Xa = eng.local(st, "X")
+        k = len(S.rec)
+        fl = eng.exec_stmt(st, body)
+        it = S.rec[k]
+        Xb = eng.local(st, "X")
+        F, F1, F2 = kepler_F(c, Xa, it["G"])
+        f, fp, fpp, denom = (eng.local(st, nm) for nm in ("f", "fp", "fpp", "denom"))
+        eng.oblige(st, tag + ".G_at_current_iterate", it["X"] == Xa)
+        prove_from(v, "F", f == F, [])
+        prove_from(v, "Fprime", fp == F1, [])
+        prove_from(v, "Fsecond", fpp == F2, [])
+        disc = 16 * fp * fp - 20 * f * fpp
+        eng.oblige(st, tag + ".denominator", z3.And(denom - fp >= 0, (denom - fp) * (denom - fp) == z3.If(disc >= 0, disc, -disc)))
+        eng.oblige(st, tag + ".denominator_positive", denom > 0)
+        prove_from(v, "laguerre_conway_step", Xb == Xa - 5 * f * (1 / denom), [])
+        fix = Xb == Xa
+        st.assume(fix)
+        prove_from(v, "fixed_point_is_root", F == 0, [fix])
+        cover(eng, st, tag)
+        raise PathEnd("one iteration checked")
+    v.loop(SOLVER, 0, invariant=quartic, mode="custom")
+    v.loop(SOLVER, 1, invariant=skip, mode="custom")
+    v.loop(SOLVER, 2, invariant=newton, mode="custom")
+    v.call(SOLVER, S.rp, S.pj.ptr, S.M, S.i, S.dt)
+
+
 @P.task("kepler_solver.fg_is_kepler_flow", fn=SOLVER)
 def _(v):
     """Lemma layer (mathematics over the clauses proved in kepler_solver.fg, no code): a state update
@@ -660,3 +780,153 @@ def _(v):
     B = (-fd_ * r0 * r0 - (Gd_ - 1) * eta0) * Mi - g_ * ri
     v.lemma("eccentricity_vector.x_coefficient", scal + [Mi * M == 1], A == 0, order=PZ)
     v.lemma("eccentricity_vector.v_coefficient", scal + [Mi * M == 1], B == 0, order=PZ)
+
+
+# ============================================================================ 5. mass parameter per coordinate system
+P.assume("mass-parameter tasks: 1 <= N - N_var, N_var >= 0, N_active == -1 or 1 <= N_active <= N - N_var, "
+         "testparticle_type in {0,1}; effective number of active bodies = N - N_var if N_active == -1 or "
+         "testparticle_type == 1, else N_active (rebound.h); Sm(k) = sum_{j=1..k} p_j[j].m is the uninterpreted prefix "
+         "sum with Sm(0)=0, Sm(k)=Sm(k-1)+p_j[k].m (its definition)")
+P.assume("the solver call in the mass-parameter tasks is replaced by a recording contract that checks its arguments and "
+         "havocs position/velocity of p_j[i] only (frame of reb_whfast_kepler_solver proved in kepler_solver.fg)")
+
+
+def step_setup(v, coords=None):
+    S = Setup()
+    S.r, S.rp = v.struct_obj("struct reb_simulation", "r")
+    S.parts = v.array("struct reb_particle", None, "particles")
+    S.pj = v.array("struct reb_particle", None, "p_jh")
+    S.N, S.Nvar, S.Nact, S.tpt = v.int("N"), v.int("N_var"), v.int("N_active"), v.int("testparticle_type")
+    S.G, S.dt = v.real("G"), v.real("dt")
+    r = S.r
+    r.N, r.N_var, r.N_active, r.testparticle_type, r.G = S.N, S.Nvar, S.Nact, S.tpt, S.G
+    r.particles = S.parts.ptr
+    r.N_var_config = 0
+    if coords is not None:
+        r.ri_whfast.coordinates = v.enumc(coords)
+        r.ri_whfast.p_jh = S.pj.ptr
+    S.Nreal = S.N - S.Nvar
+    v.assume(S.Nvar >= 0, S.Nreal >= 1, z3.Or(S.Nact == -1, z3.And(S.Nact >= 1, S.Nact <= S.Nreal)),
+             z3.Or(S.tpt == 0, S.tpt == 1))
+    S.Neff = z3.If(z3.Or(S.Nact == -1, S.tpt == 1), S.Nreal, S.Nact)
+    S.m0 = S.parts.leaf(0, "m")
+    S.called = v.array("int", None, "ghost_called")      # ghost: called[k] = 1 once the solver has been called for body k
+    S.called0 = S.called.array()
+    return S
+
+
+def coverage_inv(S, i):
+    k = z3.Int("kc")
+    cur = S.called.array()
+    return z3.ForAll([k], z3.And(z3.Implies(z3.And(1 <= k, k < i), z3.Select(cur, k) == 1),
+                                 z3.Implies(k >= i, z3.Select(cur, k) == z3.Select(S.called0, k))))
+
+
+def coverage_post(v, S, n):
+    j = v.int("jc")
+    v.assume(1 <= j, j < n, z3.Select(S.called0, j) == 0)
+    v.prove("every_body_advanced_once", z3.Select(S.called.array(), j) == 1)
+
+
+def recording_solver(v, S, arr, M_spec, calls):
+    """Contract of reb_whfast_kepler_solver at its call sites: argument checks, then p_j[i].{x..vz} := fresh."""
+    tag = v.task.name
+
+    def apply(eng, st, args, node):
+        rp, pp, M, idx, dt = args
+        i = eng.local(st, "i")
+        eng.oblige(st, tag + ".call.simulation", z3.BoolVal(isinstance(rp, Ptr) and rp.obj == S.rp.obj))
+        eng.oblige(st, tag + ".call.particle_array",
+                   z3.BoolVal(isinstance(pp, Ptr) and pp.obj == arr.ptr.obj and z3.is_true(simp(pp.path[-1] == 0))))
+        eng.oblige(st, tag + ".call.index_is_loop_index", idx == i)
+        eng.oblige(st, tag + ".call.index_in_range", z3.And(idx >= 1, idx < S.Nreal_here))
+        eng.oblige(st, tag + ".call.dt", as_real(dt) == S.dt)
+        ob = eng.oblige(st, tag + ".call.mass_parameter", as_real(M) == M_spec(idx))
+        for f in ("x", "y", "z", "vx", "vy", "vz"):
+            eng.write(st, Ptr(pp.obj, (idx, f)), eng.fresh("kep_" + f, z3.RealSort()))
+        eng.oblige(st, tag + ".call.not_called_before", z3.Select(S.called.array(), idx) == z3.Select(S.called0, idx))
+        eng.write(st, Ptr(S.called.ptr.obj, (idx,)), z3.IntVal(1))
+        calls.append(idx)
+        return None
+    v.contract(SOLVER, apply)
+
+
+def _mass_task(coords, ordinal, doc):
+    @P.task("kepler_step.mass." + coords.split("_")[-1].lower(), fn="reb_whfast_kepler_step")
+    def _(v):
+        S = step_setup(v, coords)
+        S.Nreal_here = S.Nreal
+        marr = S.pj.array("m")
+        Sm = z3.Function("Sm", z3.IntSort(), z3.RealSort())
+        k = z3.Int("k")
+        v.assume(Sm(0) == 0, z3.ForAll([k], Sm(k) == Sm(k - 1) + z3.Select(marr, k), patterns=[Sm(k)]))
+        m0, G, Neff = S.m0, S.G, S.Neff
+
+        def mn(a, b):
+            return z3.If(a <= b, a, b)
+        spec = {
+            "REB_WHFAST_COORDINATES_JACOBI": lambda i: G * (m0 + Sm(mn(i, Neff - 1))),
+            "REB_WHFAST_COORDINATES_DEMOCRATICHELIOCENTRIC": lambda i: G * m0,
+            "REB_WHFAST_COORDINATES_WHDS": lambda i: z3.If(i < Neff, G * (m0 + z3.Select(marr, i)), G * m0),
+            "REB_WHFAST_COORDINATES_BARYCENTRIC": lambda i: G * z3.Select(marr, 0),
+        }[coords]
+        calls = []
+        recording_solver(v, S, S.pj, spec, calls)
+
+        def inv(L):
+            out = [("range", z3.And(L.i >= 1, z3.Or(L.i <= S.Nreal, S.Nreal < 1))),
+                   ("masses_unchanged", z3.And(S.pj.array("m") == marr, S.parts.array("m") == S.parts_m))]
+            if coords.endswith("JACOBI"):
+                out.append(("interior_mass", L.eta == m0 + Sm(mn(L.i - 1, Neff - 1))))
+            out.append(("coverage", coverage_inv(S, L.i)))
+            return out
+        S.parts_m = S.parts.array("m")
+        v.loop("reb_whfast_kepler_step", ordinal, invariant=inv, variant=lambda L: S.Nreal - L.i)
+        v.call("reb_whfast_kepler_step", S.rp, S.dt)
+        v.prove("frame.masses", z3.And(S.pj.array("m") == marr, S.parts.array("m") == S.parts_m))
+        coverage_post(v, S, S.Nreal)
+    _.__doc__ = doc
+
+
+_mass_task("REB_WHFAST_COORDINATES_JACOBI", 0,
+           "Jacobi: body i moves around the mass interior to it, M_i = G (m0 + sum_{1<=j<=min(i,N_active-1)} m_j).")
+_mass_task("REB_WHFAST_COORDINATES_DEMOCRATICHELIOCENTRIC", 1, "Democratic heliocentric: M = G m0 for every body.")
+_mass_task("REB_WHFAST_COORDINATES_WHDS", 2, "WHDS: M = G (m0 + m_i) for active bodies, G m0 for test particles.")
+_mass_task("REB_WHFAST_COORDINATES_BARYCENTRIC", 3, "Barycentric: M = G p_j[0].m (slot 0 of p_jh holds the total mass).")
+
+
+def _dh_caller(name, fn, tu):
+    @P.task("kepler_step.mass." + name, fn=fn, files=[tu])
+    def _(v):
+        """MERCURIUS / TRACE Kepler step (democratic heliocentric, away from encounters): every body 1..N-1 is advanced
+        by reb_whfast_kepler_solver on r->particles with M = G particles[0].m and the caller's dt."""
+        S = step_setup(v)
+        S.Nreal_here = S.N
+        v.assume(S.N >= 1)
+        marr = S.parts.array("m")
+        calls = []
+        recording_solver(v, S, S.parts, lambda i: S.G * S.m0, calls)
+
+        def inv(L):
+            return [("range", L.i >= 1), ("masses_unchanged", S.parts.array("m") == marr),
+                    ("coverage", coverage_inv(S, L.i))]
+        v.loop(fn, 0, invariant=inv, variant=lambda L: S.N - L.i)
+        v.call(fn, S.rp, S.dt)
+        v.prove("frame.masses", S.parts.array("m") == marr)
+        coverage_post(v, S, S.N)
+
+
+_dh_caller("mercurius", "reb_integrator_mercurius_kepler_step", "src/integrator_mercurius.c")
+_dh_caller("trace", "reb_integrator_trace_whfast_step", "src/integrator_trace.c")
+
+
+P.assume("SABA calls reb_whfast_kepler_step (integrator_saba.c) and therefore inherits the WHFast contracts above; "
+         "its sub-step lengths c_i*dt (both signs occur) are covered because dt is an unconstrained real here")
+P.not_decided.append("WHFast512 (integrator_whfast512.c: AVX-512 intrinsics, own Stumpff/Newton code in vector registers): "
+                     "not analysable by the C executor -- not decided")
+P.not_decided.append("tangent map of the solver (variational block, lines 311-342: dX, dG_k, df, dg, dfd, dgd as "
+                     "derivatives of the f,g map): belongs to C16 (variational equations); here N_var_config = 0")
+P.not_decided.append("composition 'Horner value -> n quadruplings -> exact c_k(z0)' is argued, not mechanised: proved are "
+                     "(i) z 4^n = z0 and |z|<=0.1 after the reduction, (ii) partial sums + truncation bound at |z|<=0.1, "
+                     "(iii) one quadrupling maps exact c_k(z) to exact c_k(4z), (iv) n decreases to 0 and z is restored; "
+                     "the truncation error carried through the quadruplings belongs to 'to rounding error'")
